@@ -274,9 +274,101 @@ def part_monitor(vh, tier, seed, work):
     return cov, findings, drift, metas
 
 
+
+# ------------------------------------------------------------------------------------------------ generic part runner
+
+def judge_all(part, module, inv_cfg, conf_cfg, traces, chunk=60000):
+    """verdict + conformance of several recorded traces (lists of lines), in chunks of whole runs"""
+    chunks = []
+    for src in traces:
+        cur = []
+        for run in split_runs(src):
+            if cur and len(cur) + len(run) > chunk:
+                chunks.append(cur)
+                cur = []
+            cur = cur + run
+        if cur:
+            chunks.append(cur)
+    findings, drift, states = [], [], 0
+    with concurrent.futures.ThreadPoolExecutor(max_workers=2) as ex:
+        jobs = [(ex.submit(judge, part, module, inv_cfg, c), ex.submit(judge, part, module, conf_cfg, c)) for c in chunks]
+        for a, b in jobs:
+            fs, st = a.result()
+            findings += fs
+            states += st
+            ds, _ = b.result()
+            drift += ds
+    return findings, drift, states
+
+
+def gen_scripts(module, cfg, what):
+    r = vlib.tlc(SPECDIR, module, cfg, workers=1, timeout=900, heap=HEAP, deadlock=False)
+    vlib.tlc_require_ok(r, "J2 %s %s" % (module, cfg))
+    return maximal(printed(r.out, "SCRIPT")), r
+
+
+def write_scripts(path, scripts, variants=None):
+    json.dump({"variants": variants or {}, "scripts": [[{"op": o, "v": v} for o, v in s] for s in scripts]}, open(path, "w"))
+
+
+def sample_scripts(scripts, n=3):
+    step = max(1, len(scripts) // n)
+    return [" ".join(o + (":" + v if v else "") for o, v in s)[:300] for s in scripts[::step][:n]]
+
+
+# ------------------------------------------------------------------------------------------------ part: withdraw
+
+def withdraw_selftest(lines):
+    """(a) one broadcast is hidden from a settled line (a marker looks unserved), (b) the kind of a taken event is
+    changed (conformance: the head of the queue is something else)."""
+    runs = [r for r in split_runs(lines) if any(l["k"] == "loop" and l["ev"] == "withdraw" for l in r)]
+    if not runs:
+        return {"ok": False, "why": "no run with a served marker"}
+    run = runs[len(runs) // 2]
+    a = [dict(l) for l in run]
+    for l in a:
+        if l["k"] == "loop" and l["ev"] == "withdraw":
+            l["sent"] -= 1
+            l["settled"] = True
+            break
+    fa, _ = judge("withdraw", "WithdrawTrace", "WithdrawTrace.cfg", a)
+    b = [dict(l) for l in run]
+    for l in b:
+        if l["k"] == "loop" and l["ev"] == "withdraw":
+            l["ev"] = "other"
+            break
+    fb, _ = judge("withdraw", "WithdrawTrace", "WithdrawTraceConform.cfg", b)
+    res = {"hide_broadcast": fa[0].invariant if fa else None, "change_event_kind": fb[0].invariant if fb else None}
+    res["ok"] = bool(fa) and bool(fb)
+    return res
+
+
+def part_withdraw(vh, tier, seed, work):
+    cov = {"configs": [j1("Withdraw", "MC_withdraw.cfg", "withdraw"), j1("Withdraw", "MC_withdraw_live.cfg", "withdraw")]}
+    scripts, r = gen_scripts("WithdrawGen", "MC_withdraw_gen.cfg" if tier == "quick" else "MC_withdraw_gen3.cfg", "withdraw")
+    sp, tp, fp = [os.path.join(work, n) for n in ("wdr-scripts.json", "wdr-trace.ndjson", "wdr-free.ndjson")]
+    write_scripts(sp, scripts)
+    out = vh_run(vh, ["withdraw-replay", "--scripts", sp, "--out", tp], "withdraw-replay")
+    log("withdraw replay:", out.strip().splitlines()[-1])
+    nfree = 150 if tier == "quick" else 3000
+    out = vh_run(vh, ["withdraw-free", "--out", fp, "--seed", str(seed), "--runs", str(nfree)], "withdraw-free")
+    log("withdraw free:  ", out.strip().splitlines()[-1])
+    lines, flines = read_trace(tp), read_trace(fp)
+    for l in flines:
+        l["run"] = "free%d/seed%d" % (l["run"], seed)
+    findings, drift, states = judge_all("withdraw", "WithdrawTrace", "WithdrawTrace.cfg", "WithdrawTraceConform.cfg",
+                                        [lines, flines])
+    cov.update({"gen_states": r.distinct, "scripts_replayed": len(scripts), "free_runs": nfree,
+                "trace_lines": len(lines) + len(flines), "trace_states_judged": states,
+                "markers_served": sum(1 for l in lines + flines if l.get("ev") == "withdraw"),
+                "failed_broadcasts_answered": sum(1 for l in lines + flines if l["k"] == "bret" and l["e"] == "err"),
+                "samples": sample_scripts(scripts), "binding_selftest": withdraw_selftest(lines)})
+    return cov, findings, drift, {"scripts": sp, "seed": seed}
+
 # ------------------------------------------------------------------------------------------------ the check
 
-PARTS = [("monitor", part_monitor)]
+PARTS = [("monitor", part_monitor), ("withdraw", part_withdraw)]
+TRACE = {"monitor": ("MonitorTrace", MON_INV), "withdraw": ("WithdrawTrace", "WithdrawTrace.cfg")}
 
 
 def run(pid, tier, seed, replay):
@@ -325,8 +417,7 @@ def run_replay(pid, path):
     """Judge a saved offending run again (trace.ndjson + replay.json of a violation directory)."""
     meta = json.load(open(os.path.join(path, "replay.json")))
     lines = read_trace(os.path.join(path, "trace.ndjson"))
-    module = {"monitor": "MonitorTrace"}[meta["part"]]
-    cfg = {"monitor": MON_INV}[meta["part"]]
+    module, cfg = TRACE[meta["part"]]
     fs, _ = judge(meta["part"], module, cfg, lines)
     if fs:
         print("VIOLATION property=%s replay=%s" % (pid, path), flush=True)
